@@ -177,7 +177,8 @@ def filespecs(draw, **opts):
                 draw(st.integers(0, 2)) == 0:
             mask = draw(st.lists(st.booleans(), min_size=size, max_size=size))
             mask = [int(m) for m in mask]
-            fill = draw(st.sampled_from([-999, -9999, -1, 99]))
+            fill = draw(st.sampled_from(opts.get(
+                'fills', [-999, -9999, -1, 99])))
         name = 'v%d' % i
         variables.append(dict(name=name, dims=list(vd), dtype=code,
                               data=data, mask=mask, fill=fill,
